@@ -291,6 +291,30 @@ pub fn c07(args: &[String]) -> i32 {
             }
         }
     }
+    // (5) a variable bound inside the alternatives of an environment SET: V > [+nasal] / :{ E1, E2 }: fires at a position exactly when
+    // `/ E1` alone or `/ E2` alone fires there - every alternative captures its own segment, whatever an earlier alternative bound before
+    // it failed.  The contexts hold consonants only and the rule changes vowels only, so the positions are decided independently.
+    let mut g5 = Gen::new(seed ^ 0xC07_5);
+    for _ in 0..(if thorough { 60000 } else { 6000 }) {
+        let tmpl = ["{x}=1 _ 1", "{x}=1 s _ 1", "{x}=1 _ p 1", "{x}=1 _ 1 t", "{x}=1 t _ 1", "{x}=1 _ s 1", "{x}=1 _ 1 #", "# {x}=1 _ 1", "{x}=1 {x}=2 _ 2 1", "{x}=1 {x}=2 _ 1 2"];
+        let mk = |g: &mut Gen| -> String { tmpl[g.rng.below(tmpl.len())].replace("{x}", ["C", "O", "[-syll]", "[-son]"][g.rng.below(4)]) };
+        let (e1, e2) = (mk(&mut g5), mk(&mut g5));
+        let a = ["a", "i", "V"][g5.rng.below(3)];
+        let mut t = String::new();
+        for i in 0..3 + g5.rng.below(5) { if i > 1 && g5.rng.chance(1, 5) { t.push('.'); } t.push_str(["t", "s", "p", "a", "i", "t", "a", "s"][g5.rng.below(8)]); }
+        let Some(w) = parse(&t) else { continue };
+        if w.sylls.iter().any(|s| s.segs.windows(2).any(|p| p[0] == p[1])) { continue }
+        let set = format!("{a} > [+nasal] / :{{ {e1}, {e2} }}:");
+        let (Out::Ok(rs), Out::Ok(r1), Out::Ok(r2)) = (apply(&[set.clone()], &w), apply(&[format!("{a} > [+nasal] / {e1}")], &w), apply(&[format!("{a} > [+nasal] / {e2}")], &w)) else { st.inc("c07.var_envset_skipped"); continue };
+        st.inc("c07.cases"); st.inc("c07.var_envset");
+        let (fw, fs, f1, f2) = (segs_of(&w), segs_of(&rs), segs_of(&r1), segs_of(&r2));
+        if fs.len() != fw.len() || f1.len() != fw.len() || f2.len() != fw.len() { println!("FINDING c07-var-envset rule={set:?} word={t} got={}", word_flat(&rs, false)); continue }
+        if rs != w { st.inc("c07.nontrivial"); }
+        for i in 0..fw.len() {
+            let (hs, h1, h2) = (fs[i] != fw[i], f1[i] != fw[i], f2[i] != fw[i]);
+            if hs != (h1 || h2) { println!("FINDING c07-var-envset rule={set:?} word={t} position={i} set_fires={hs} first_alone={h1} second_alone={h2}"); break }
+        }
+    }
     st.print();
     0
 }
